@@ -19,10 +19,12 @@ import (
 	tmtypes "github.com/cometbft/cometbft/types"
 	"github.com/cosmos/cosmos-sdk/baseapp"
 	"github.com/cosmos/cosmos-sdk/client"
+	"github.com/cosmos/cosmos-sdk/client/flags"
 	clienttx "github.com/cosmos/cosmos-sdk/client/tx"
 	"github.com/cosmos/cosmos-sdk/codec"
 	"github.com/cosmos/cosmos-sdk/crypto/keys/secp256k1"
 	cryptotypes "github.com/cosmos/cosmos-sdk/crypto/types"
+	"github.com/cosmos/cosmos-sdk/store"
 	simtestutil "github.com/cosmos/cosmos-sdk/testutil/sims"
 	sdk "github.com/cosmos/cosmos-sdk/types"
 	"github.com/cosmos/cosmos-sdk/types/tx/signing"
@@ -78,6 +80,14 @@ type Options struct {
 	Upgrades   int                                                  // if >0: number of entries of app.Upgrades to keep ("old binary")
 	ExtraCoins sdk.Coins                                            // extra per-account coins
 	Home       string                                               // node home (default: one shared scratch home per process)
+	Node       NodeConfig                                           // node-local settings (app.toml): must never influence consensus
+}
+
+// NodeConfig is what an operator sets locally in app.toml / on the command line; `panacead start` turns these into
+// app options and baseapp options exactly as done here.
+type NodeConfig struct {
+	MinGasPrices    string // "minimum-gas-prices"
+	InterBlockCache bool   // "inter-block-cache"
 }
 
 // World wraps one application instance plus the driver state.
@@ -130,14 +140,14 @@ var newAppMu sync.Mutex
 // start-up path does - store loaders, checks, hooks - is executed). app.New calls os.Exit(1) when loading fails, which
 // would kill the harness without a verdict; therefore a database that already holds state is first opened on a COPY
 // with loadLatest=false + LoadLatestVersion, and a failure there is reported as a panic the caller can judge.
-func newApp(db dbm.DB, home string, upgrades int) *app.App {
+func newApp(db dbm.DB, home string, upgrades int, node NodeConfig) *app.App {
 	if err := probeOpen(db, home, upgrades); err != nil {
 		panic(fmt.Errorf("NODE CANNOT START: loading the latest version failed: %w", err))
 	}
-	return construct(db, home, upgrades, true)
+	return construct(db, home, upgrades, true, node)
 }
 
-func construct(db dbm.DB, home string, upgrades int, loadLatest bool) *app.App {
+func construct(db dbm.DB, home string, upgrades int, loadLatest bool, node NodeConfig) *app.App {
 	if upgrades > 0 && upgrades < len(fullUpgrades) {
 		// "old binary": only C19 does this, single-threaded; the package-level list is swapped under a lock
 		newAppMu.Lock()
@@ -145,7 +155,17 @@ func construct(db dbm.DB, home string, upgrades int, loadLatest bool) *app.App {
 		app.Upgrades = fullUpgrades[:upgrades]
 		defer func() { app.Upgrades = fullUpgrades }()
 	}
-	return app.New(log.NewNopLogger(), db, nil, loadLatest, simtestutil.NewAppOptionsWithFlagHome(home), baseapp.SetChainID(ChainID))
+	appOpts := simtestutil.AppOptionsMap{flags.FlagHome: home}
+	bopts := []func(*baseapp.BaseApp){baseapp.SetChainID(ChainID)}
+	if node.MinGasPrices != "" {
+		appOpts["minimum-gas-prices"] = node.MinGasPrices
+		bopts = append(bopts, baseapp.SetMinGasPrices(node.MinGasPrices))
+	}
+	if node.InterBlockCache {
+		appOpts["inter-block-cache"] = true
+		bopts = append(bopts, baseapp.SetInterBlockCache(store.NewCommitKVStoreCacheManager()))
+	}
+	return app.New(log.NewNopLogger(), db, nil, loadLatest, appOpts, bopts...)
 }
 
 // probeOpen dry-runs the store loading on a copy of an in-memory database (other database kinds are opened by child
@@ -169,7 +189,7 @@ func probeOpen(db dbm.DB, home string, upgrades int) error {
 	if n == 0 {
 		return nil // fresh database: nothing to load
 	}
-	a := construct(cp, home, upgrades, false)
+	a := construct(cp, home, upgrades, false, NodeConfig{})
 	return a.LoadLatestVersion()
 }
 
@@ -205,7 +225,7 @@ func New(opts Options) *World {
 		opts.DB = dbm.NewMemDB()
 	}
 	w := &World{DB: opts.DB, Home: homeFor(opts), Opts: opts, ValSet: valSet()}
-	w.App = newApp(w.DB, w.Home, opts.Upgrades)
+	w.App = newApp(w.DB, w.Home, opts.Upgrades, opts.Node)
 	gs := GenesisFor(w.App, opts.Accounts, opts.ExtraCoins)
 	if opts.Mutate != nil {
 		opts.Mutate(gs, w.App.AppCodec())
@@ -298,7 +318,7 @@ func (w *World) Restart() {
 
 // Reopen constructs a new application object on the same DB (no block opened).
 func (w *World) Reopen() {
-	w.App = newApp(w.DB, w.Home, w.Opts.Upgrades)
+	w.App = newApp(w.DB, w.Home, w.Opts.Upgrades, w.Opts.Node)
 	w.InBlock = false
 	w.Height = w.App.LastBlockHeight()
 	w.LastHash = w.App.LastCommitID().Hash
@@ -333,7 +353,7 @@ func ImportFrom(opts Options, appState []byte, vals []abci.ValidatorUpdate, heig
 	Init()
 	opts.DB = dbm.NewMemDB()
 	w = &World{DB: opts.DB, Home: homeFor(opts), Opts: opts, ValSet: valSet()}
-	w.App = newApp(w.DB, w.Home, opts.Upgrades)
+	w.App = newApp(w.DB, w.Home, opts.Upgrades, opts.Node)
 	defer func() {
 		if r := recover(); r != nil {
 			err = fmt.Errorf("InitChain panicked: %v", r)
